@@ -2,7 +2,7 @@
 Ties between the extrema wrappers of `morph.py` (`_remove_centre`, `locmax`, `locmin`, `regmax`, `regmin`, `close_holes`;
 regenerated on every run into `Generated/PyBodies.lean`) and the models of `Model/C14.lean` the driver runs.
 -/
-import Mahotas.Generated.PyBodies
+import Mahotas.Generated.PyBodiesC14
 import Mahotas.Model.C14
 import Mahotas.Proofs.C01Index
 
